@@ -594,9 +594,8 @@ void Monitor::on_service_begin()
                 return;
         // the event machine runs first in a service call and may pop one event if it is idle; a trigger made
         // from a command handler later in the same call already sees the ring after that pop
-        bool in_progress = false;
-        for (auto &r : evs)
-                in_progress |= r.total > 0 && r.remaining < r.total && r.remaining > 0;
+        // (events are processed in FIFO order and finished ones leave evs: the one in progress is always the front)
+        bool in_progress = !evs.empty() && evs.front().total > 0 && evs.front().remaining < evs.front().total && evs.front().remaining > 0;
         if (in_progress || popped_possible >= accepted)
                 return;
         // events that end without any observable effect may all be consumed in one call (an implementation is free
@@ -710,6 +709,17 @@ void Monitor::on_trigger(int cmd, int type, int status, int full_before)
                 evq_owner.push_back((int)accepted);
         }
         accepted++;
+        // floods of events without observable processing while the parser never gets quiescent (a held command):
+        // the ring holds at most qcap <= 8 waiting events, so one that has seen 512 later acceptances has left it
+        while (evs.size() > 512 && evs.front().total == 0 && (evq_owner.empty() || (uint64_t)evq_owner.front() > ev_base)) {
+                evs.pop_front();
+                ev_base++;
+                st.events_finished++;
+                if (popped_certain < ev_base)
+                        popped_certain = ev_base;
+                if (popped_possible < popped_certain)
+                        popped_possible = popped_certain;
+        }
 }
 
 void Monitor::release_request(int status, bool certain)
@@ -842,13 +852,15 @@ void Monitor::on_processed(int fsm, int cmd)
         if (dead() || fsm != FSM_EV)
                 return;
         // event in flight (some but not all of its items seen): must be reported
-        for (auto &e : evs)
+        if (!evs.empty()) {
+                const EvRec &e = evs.front();
                 if (e.total > 0 && e.remaining > 0 && e.remaining < e.total) {
                         if (cmd != e.cmd)
                                 fail_soft("C13", "processed-command-wrong-during-event", "cat_get_processed_command(UNSOLICITED) returned cmd " + std::to_string(cmd) + " while the event on cmd " +
                                                                                         std::to_string(e.cmd) + " is in progress");
                         return;
                 }
+        }
         if (cmd == -1)
                 return;
         if (cmd == last_finished_ev_cmd)
